@@ -420,45 +420,68 @@ func c18PlusTls(w *World, r *Report, tlsTypes map[string]bool) {
 			return isTlsTest(st.Val) // flag := <the +tls test itself>
 		}
 		npaths := 0
-		okp := enumPaths(fn, nil, isBoolSet, nil, func(e pathExit) {
-			ret, isRet := e.Last.(*ssa.Return)
-			if !isRet || len(ret.Results) == 0 {
-				return
+		okp := true
+		// the scheme handling may live in helpers of Startup/Connect (same static cone)
+		for _, f := range staticCone(fn, 2) {
+			hasErr := false
+			if res := f.Signature.Results(); res.Len() > 0 {
+				hasErr = types.Identical(res.At(res.Len()-1).Type(), types.Universe.Lookup("error").Type())
 			}
-			if !isConstNil(e.State.Resolve(ret.Results[len(ret.Results)-1])) {
-				return
-			}
-			tls, known := false, false
-			for v, t := range e.State.Facts {
-				if isTlsTest(v) {
-					tls, known = t, true
+			okf := enumPaths(f, nil, isBoolSet, nil, func(e pathExit) {
+				ret, isRet := e.Last.(*ssa.Return)
+				if !isRet {
+					return
 				}
-			}
-			if !known || !tls {
-				return
-			}
-			npaths++
-			set := false
-			for _, ev := range e.State.Events {
-				if b, isC := constBool(ev.(*ssa.Store).Val); isC {
-					set = b
-				} else if isTlsTest(ev.(*ssa.Store).Val) {
-					set = true // on this path the test is true
+				if hasErr && !isConstNil(e.State.Resolve(ret.Results[len(ret.Results)-1])) {
+					return
 				}
-			}
-			for ph, sel := range e.State.PhiSel {
-				if bt, ok := ph.Type().Underlying().(*types.Basic); ok && bt.Kind() == types.Bool {
-					if b, ok := constBool(e.State.Resolve(sel)); ok && b {
-						set = true
+				tls, known := false, false
+				var testVal ssa.Value
+				for v, t := range e.State.Facts {
+					if isTlsTest(v) {
+						tls, known = t, true
+						testVal = v
 					}
 				}
+				if !known || !tls {
+					return
+				}
+				npaths++
+				set := false
+				for _, ev := range e.State.Events {
+					if b, isC := constBool(ev.(*ssa.Store).Val); isC {
+						set = b
+					} else if isTlsTest(ev.(*ssa.Store).Val) {
+						set = true // on this path the test is true
+					}
+				}
+				for ph, sel := range e.State.PhiSel {
+					if bt, ok := ph.Type().Underlying().(*types.Basic); ok && bt.Kind() == types.Bool {
+						if b, ok := constBool(e.State.Resolve(sel)); ok && b {
+							set = true
+						}
+					}
+				}
+				// flag := <the test>, used as a value (argument, result) rather than only branched on
+				if testVal != nil && testVal.Referrers() != nil {
+					for _, ref := range *testVal.Referrers() {
+						switch ref.(type) {
+						case *ssa.If, *ssa.DebugRef:
+						default:
+							set = true
+						}
+					}
+				}
+				if set {
+					found = true
+				} else {
+					misplaced = "a successful path with a +tls scheme leaves the secure flag false"
+				}
+			})
+			if !okf {
+				okp = false
 			}
-			if set {
-				found = true
-			} else {
-				misplaced = "a successful path with a +tls scheme leaves the secure flag false"
-			}
-		})
+		}
 		if !okp {
 			r.Undecided("R18.2", key, w.Pos(m.Pos()), "path budget exceeded")
 			continue
